@@ -34,7 +34,7 @@ SCO = dict(type="ipv4-addr", spec_version="2.1", id="ipv4-addr--" + U + "2", val
 OLD20 = dict(type="campaign", id="campaign--3f7f0c5f-5d54-4292-94ea-ec1e1952be13", created=T1, modified=T1, name="old20")
 MD = dict(type="marking-definition", spec_version="2.1", id="marking-definition--" + U + "4", created=T1, definition_type="statement", definition={"statement": "s"})
 XID = "x-unreg--" + U + "5"
-C1 = dict(type="x-unreg", spec_version="2.1", id=XID, created="2020-01-01T00:00:00Z", modified="2020-01-01T00:00:00.5Z", name="c1")
+C1 = dict(type="x-unreg", spec_version="2.1", id=XID, created="2020-01-01T00:00:00Z", modified="2020-01-01T00:00:00.5Z", name="c1", weight=0.1, nested={"ratio": 2.675, "tiny": 1e-07, "count": 3, "big": 1e+22})
 C2 = dict(type="x-unreg", spec_version="2.1", id=XID, created="2020-01-01T00:00:00Z", modified="2020-01-01T00:00:01Z", name="c2")
 C0 = dict(type="x-unreg", spec_version="2.1", id=XID, created="2020-01-01T00:00:00Z", modified="2020-01-01T00:00:00Z", name="c0")
 C3 = dict(type="x-unreg", spec_version="2.1", id=XID, created="2020-01-01T00:00:00Z", modified="2020-01-01T00:00:02.0004Z", name="c3")
@@ -56,7 +56,7 @@ R1 = dict(type="x-verif-obj", spec_version="2.1", id=RID, created=T1, modified=T
 R2 = dict(type="x-verif-obj", spec_version="2.1", id=RID, created=T1, modified=T2, prop="r2")
 # STIX 2.0 content that is custom: a 2.0 object with a custom property, and an unregistered type written the 2.0 way (no spec_version) - alone they make a store
 # that holds nothing of 2.1
-OLD20X = dict(type="campaign", id="campaign--3f7f0c5f-5d54-4292-94ea-ec1e1952be1e", created=T1, modified=T1, name="old20x", x_note="custom")
+OLD20X = dict(type="campaign", id="campaign--3f7f0c5f-5d54-4292-94ea-ec1e1952be1e", created=T1, modified=T1, name="old20x", x_note="custom", x_weight=0.1, x_rank=3)
 U20ID = "x-unreg--3f7f0c5f-5d54-4292-94ea-ec1e1952be1f"
 U20 = dict(type="x-unreg", id=U20ID, created=T1, modified=T1, name="u20")
 # two versions of a REGISTERED custom object inside one millisecond (2.1 keeps the digits)
@@ -170,7 +170,26 @@ def norm(obj):
             i = tsfmt.instant_of(x)
             return {"$instant": i} if i is not None else x
         return x
-    return walk(v)
+    out = walk(v)
+    # the Python KIND of every number found in the object as handed out (re-serializing would hide a float that came back as another numeric class)
+    kinds = []
+
+    def numbers(x, path):
+        if hasattr(x, "items") and not isinstance(x, str):
+            for k, y in x.items():
+                numbers(y, path + (str(k),))
+        elif isinstance(x, (list, tuple)):
+            for i, y in enumerate(x):
+                numbers(y, path + (i,))
+        elif isinstance(x, bool) or x is None or isinstance(x, str):
+            pass
+        elif isinstance(x, (int, float)) or type(x).__module__ in ("decimal", "fractions", "numbers"):
+            kinds.append([list(path), type(x).__name__, x == x and float(x) == x and repr(float(x)) or repr(x)])
+    numbers(obj, ())
+    kinds.sort(key=str)          # member order is not content
+    if kinds and isinstance(out, dict):
+        out["$number-kinds"] = kinds
+    return out
 
 
 def chash(n):
